@@ -16,7 +16,7 @@ from .. import astutil as A
 from .. import flow as F
 from .. import guards as G
 from .. import roles
-from ..model import AnalysisError, dotted, src
+from ..model import AnalysisError, Unknown, dotted, src
 from .c12 import parents
 
 TECHNIQUE = "queue-discipline usage classification, key-mirror table check, publish-after-initialise ordering and a path rule on the non-blocking receive (static analysis)"
@@ -169,25 +169,52 @@ def run(ctx):
     ctx.fn("_SocketHub.recv")
     rp = A.param_names(recv)
     blockp = rp[2] if len(rp) > 2 else "block"
+    import networkx as nx
+
+    def empty_fact(t, pol):
+        """does the fact (t, pol) say that the queue is empty?  decided by evaluating t on an empty and on a non-empty queue"""
+        try:
+            on_empty = bool(G.peval(t, {"messages": []}))
+            on_full = bool(G.peval(t, {"messages": [G.Sym("msg")]}))
+        except Unknown:
+            return False
+        return on_empty != on_full and on_empty == pol
+
+    def nonblocking_fact(t, pol):
+        return (A.norm(t) == blockp and not pol)
+
     raises = []
     for n in ast.walk(recv):
         if isinstance(n, ast.Raise):
-            tests = G.enclosing_tests(recv, n)
-            empty = [t for t, pol in tests if (pol and A.norm(t) in ("len(messages)==0", "notmessages")) or (not pol and A.norm(t) in ("len(messages)>0", "messages"))]
-            nb = [t for t, pol in tests if (pol and A.norm(t) == f"not{blockp}") or (not pol and A.norm(t) == blockp)]
-            if empty and nb:
-                raises.append((n, empty[0]))
+            facts = G.path_conditions(recv, n)
+            if any(empty_fact(t, pol) for t, pol in facts) and any(nonblocking_fact(t, pol) for t, pol in facts):
+                raises.append(n)
     ctx.check("C18.E", "recv:non-blocking-empty-raises", len(raises) == 1, f"found {len(raises)} raise statements under (queue empty and not {blockp}); a non-blocking receive on an empty channel must report emptiness", repo.loc(m, recv))
     if raises:
-        r, empty_test = raises[0]
-        # statements between the emptiness test and the raise: those dominating the raise inside the branch of the emptiness test
-        if_empty = [n for n in ast.walk(recv) if isinstance(n, ast.If) and n.test is empty_test][0]
-        inside = [st for st in G.dominating_stmts(recv, r) if any(st is x for b in (if_empty.body, if_empty.orelse) for y in b for x in ast.walk(y))]
-        bad = [st for st in inside if isinstance(st, (ast.While, ast.For)) or any(isinstance(c, ast.Call) and A.call_name(c) in ("sleep", "wait") for c in ast.walk(st))]
-        ctx.check("C18.E", "recv:no-sleep-or-loop-before-the-raise", not bad, f"between the emptiness test and the raise there is `{src(bad[0])[:50] if bad else ''}`: the non-blocking receive would block", repo.loc(m, r))
+        r = raises[0]
+        cfg = F.CFG(recv)
+        fetch = [st for st in A.body_nodes(recv) if isinstance(st, ast.Assign) and A.norm(st.targets[0]) == "messages"]
+        sleeps = [st for st in A.body_nodes(recv) if isinstance(st, ast.stmt) and not isinstance(st, (ast.While, ast.For, ast.If, ast.With, ast.Try)) and any(isinstance(c, ast.Call) and A.call_name(c) in ("sleep", "wait") for c in ast.walk(st))]
+        rn = cfg.stmt_containing(r) if cfg.node(r) is None else cfg.node(r)
+        bad = []
+        if len(fetch) == 1 and rn is not None:
+            g2 = cfg.g.copy()
+            fnode = cfg.node(fetch[0])
+            if fnode is not None:
+                g2.remove_node(fnode)
+            for sl in sleeps:
+                sn = cfg.node(sl)
+                if sn is not None and sn in g2 and rn in g2 and nx.has_path(g2, sn, rn):
+                    bad.append(sl)
+            # and the emptiness is decided without sleeping first: from the fetch to the raise no path passes a sleep
+            for sl in sleeps:
+                sn = cfg.node(sl)
+                if sn is not None and fnode is not None and nx.has_path(cfg.g, fnode, sn) and nx.has_path(g2, sn, rn) and sl not in bad:
+                    bad.append(sl)
+        ctx.check("C18.E", "recv:no-sleep-or-loop-before-the-raise", len(fetch) == 1 and not bad, f"the raise for an empty queue can be reached after `{src(bad[0])[:50] if bad else 'no single fetch of the queue'}` without looking at the queue again: the non-blocking receive would block (or report a stale state)", repo.loc(m, r))
         # the emptiness test reads the socket's own queue, fetched in the same iteration
-        loop = [n for n in ast.walk(recv) if isinstance(n, ast.While) and any(x is if_empty for x in ast.walk(n))]
-        fresh = bool(loop) and any(isinstance(s, ast.Assign) and A.norm(s.targets[0]) == "messages" for st in loop[0].body for s in ast.walk(st))
+        loop = [n for n in ast.walk(recv) if isinstance(n, ast.While) and any(x is r for x in ast.walk(n))]
+        fresh = bool(loop) and any(isinstance(s_, ast.Assign) and A.norm(s_.targets[0]) == "messages" for st in loop[0].body for s_ in ast.walk(st))
         ctx.check("C18.E", "recv:emptiness-tested-on-own-queue-each-iteration", fresh and keys_used(recv, "_messages") == {f"{rp[1]}.key"},
                   f"the queue inspected by recv is {sorted(keys_used(recv, '_messages'))}, fetched inside the polling loop: {fresh}", repo.loc(m, recv), trivial=True)
     # returned message = popped head
